@@ -65,7 +65,7 @@ sim::Json GenOpts::to_json() const {
     j["allow_msw"] = allow_msw; j["allow_history"] = allow_history; j["allow_groups"] = allow_groups;
     j["restart_safe_conditions"] = restart_safe_conditions; j["nonmidnight"] = nonmidnight; j["step_events"] = step_events;
     j["action_inline_safe"] = action_inline_safe; j["vector_target"] = vector_target; j["units"] = units;
-    j["fmtout"] = fmtout; j["unifout"] = unifout; j["esmry"] = esmry; j["rptonly"] = rptonly; j["sumthin"] = sumthin; j["date_conditions"] = date_conditions; j["nested_parens"] = nested_parens; j["stop_safe"] = stop_safe; j["weltarg_safe"] = weltarg_safe;
+    j["fmtout"] = fmtout; j["unifout"] = unifout; j["esmry"] = esmry; j["rptonly"] = rptonly; j["sumthin"] = sumthin; j["date_conditions"] = date_conditions; j["nested_parens"] = nested_parens; j["stop_safe"] = stop_safe; j["weltarg_safe"] = weltarg_safe; j["cond_well_bias"] = cond_well_bias; j["min_wells"] = min_wells;
     return j;
 }
 GenOpts GenOpts::from_json(const Json& j) {
@@ -77,7 +77,7 @@ GenOpts GenOpts::from_json(const Json& j) {
     o.step_events = j.getb("step_events", o.step_events); o.action_inline_safe = j.getb("action_inline_safe", o.action_inline_safe);
     o.vector_target = static_cast<int>(j.geti("vector_target", 0)); o.units = j.gets("units", "");
     o.fmtout = static_cast<int>(j.geti("fmtout", -1)); o.unifout = static_cast<int>(j.geti("unifout", -1)); o.esmry = j.getb("esmry", false);
-    o.rptonly = j.getb("rptonly", false); o.sumthin = j.getb("sumthin", false); o.date_conditions = j.getb("date_conditions", o.date_conditions); o.nested_parens = j.getb("nested_parens", o.nested_parens); o.stop_safe = j.getb("stop_safe", o.stop_safe); o.weltarg_safe = j.getb("weltarg_safe", false);   // absent in replay files written before the knob existed
+    o.rptonly = j.getb("rptonly", false); o.sumthin = j.getb("sumthin", false); o.date_conditions = j.getb("date_conditions", o.date_conditions); o.nested_parens = j.getb("nested_parens", o.nested_parens); o.stop_safe = j.getb("stop_safe", o.stop_safe); o.cond_well_bias = j.getd("cond_well_bias", 0.0); o.min_wells = static_cast<int>(j.geti("min_wells", 1)); o.weltarg_safe = j.getb("weltarg_safe", false);   // absent in replay files written before the knob existed
     return o;
 }
 
@@ -142,6 +142,7 @@ struct Gen {
         std::vector<std::string> wellq = restart_safe ? std::vector<std::string>{"WOPT", "WWPT", "WGPT"} : std::vector<std::string>{"WOPT", "WOPR", "WWPR", "WWCT", "WLPR", "WBHP", "WOPRH"};
         std::vector<std::string> groupq = restart_safe ? std::vector<std::string>{"GOPT", "GWPT"} : std::vector<std::string>{"GOPT", "GOPR", "GWPR", "GLPR"};
         double u = rng.unit();
+        const bool forced_well = o.cond_well_bias > 0 && !m.wells.empty() && rng.chance(o.cond_well_bias);
         auto thresh = [&](const std::string& qn) {
             if (qn.find("CT") != std::string::npos) return num(std::round(rng.real(0.05, 0.9) * 100) / 100);
             if (qn == "FGOR") return num(std::round(rng.real(10, 200)));
@@ -150,7 +151,13 @@ struct Gen {
             double v = std::exp(rng.real(std::log(total ? 300.0 : 30.0), std::log(total ? 3e5 : 3000.0))) * rate_scale * (qn[1] == 'G' ? 50 : 1);
             return num(std::round(v));
         };
-        if (u < 0.30) { c.lhs = rng.pick(fieldq); c.rhs = thresh(c.lhs); }
+        if (forced_well) {
+            c.lhs = rng.pick(wellq);
+            double v = rng.unit();
+            c.lhs_args = {v < 0.5 ? std::string("*") : v < 0.8 ? std::string("P*") : std::string(1, m.wells[rng.below(m.wells.size())].name[0]) + "*"};
+            c.rhs = thresh(c.lhs);
+        }
+        else if (u < 0.30) { c.lhs = rng.pick(fieldq); c.rhs = thresh(c.lhs); }
         else if (u < 0.62 && !m.wells.empty()) {
             c.lhs = rng.pick(wellq);
             double v = rng.unit();
@@ -176,12 +183,14 @@ struct Gen {
 
     std::vector<Cmp> condition(bool restart_safe) {
         int n = static_cast<int>(rng.chance(0.5) ? 1 : rng.range(2, rng.chance(0.2) ? 8 : 4));
+        if (o.cond_well_bias > 0) n = static_cast<int>(rng.range(3, 6));
         std::vector<Cmp> cs;
         for (int k = 0; k < n; ++k) cs.push_back(comparison(restart_safe));
         for (int k = 0; k + 1 < n; ++k) cs[static_cast<size_t>(k)].logic = rng.chance(0.55) ? "AND" : "OR";
         // parentheses: pick up to 2 balanced ranges (nesting <= 3 overall)
         if (n >= 3) {
             int np = static_cast<int>(rng.below(3));
+            if (o.cond_well_bias > 0 && np == 0) np = 1;
             for (int p = 0; p < np; ++p) {
                 int a = static_cast<int>(rng.range(0, n - 2)), b = static_cast<int>(rng.range(a + 1, n - 1));
                 const int lim = o.nested_parens ? 2 : 1;
@@ -270,7 +279,7 @@ struct Gen {
         std::vector<std::string> leaves(leaf_groups.begin(), leaf_groups.end());
 
         // ---- wells
-        int nw = static_cast<int>(rng.range(1, std::min(o.max_wells, m.nx * m.ny)));
+        int nw = static_cast<int>(rng.range(std::min(o.min_wells, m.nx * m.ny), std::min(o.max_wells, m.nx * m.ny)));
         std::vector<int> cols; for (int c = 0; c < m.nx * m.ny; ++c) cols.push_back(c);
         for (size_t c = cols.size(); c > 1; --c) std::swap(cols[c - 1], cols[rng.below(c)]);
         m.actnum.assign(static_cast<size_t>(m.nx * m.ny * m.nz), 1);
